@@ -86,6 +86,16 @@ class Run:
             while k and len(k) > np_ - len(d) and d[len(k) - 1 - (np_ - len(d))] == k[-1]:
                 k.pop()
             return cells(*k)
+        if spelling == "kwskip":
+            # an EARLIER defaulted parameter omitted, the later ones given by keyword (in reversed order)
+            d = c["defaults"]; np_ = c["nparams"]; first = np_ - len(d)
+            pos, kw, skipped = list(key[:first]), {}, False
+            for i in range(first, np_):
+                if not skipped and i < np_ - 1 and d[i - first] == key[i]:
+                    skipped = True
+                    continue
+                kw["p%d" % i] = key[i]
+            return cells(*pos, **dict(reversed(list(kw.items()))))
         if spelling == "mixed" and len(key) >= 2:
             return cells(key[0], **{"p%d" % i: v for i, v in reversed(list(enumerate(key))) if i >= 1})
         return cells(*key)
